@@ -44,6 +44,17 @@ TRUSTED = [
     "termination of (B) (Proofs/SrcLane_measure.v): program-point conditional potential; every step and worker pick-up pays at least "
     "1, a client call adds its constant (C15_every_step_pays, C15_worker_pickup_pays, C15_client_call_cost, C15_execution_bound); "
     "not a fairness statement: it bounds the work between client calls, it does not say the target queue's workers run",
+    "what a successful replay establishes: a replay starts from SrcLaneR.init_from w0 inst -- the source at rest with the "
+    "RECORDED first dq_state word (checked by init_word_ok: inactive as created, or idle and active), not from a state known "
+    "to be SrcLane.reach-able from init_state / init_inactive; C15_replay_sound gives every replayed state the invariant Inv "
+    "(and reachability from that recorded start, reachw), hence everything that follows from Inv alone (exclusivity, the word's "
+    "lock shape, the no-stranding and DIRTY clauses, the data clauses); the exported theorems stated over `reach c rb` are not "
+    "claimed of replayed states as such",
+    "POut is absorbing: a thread that leaves the modelled fragment (over-resume, side suspend counter, IN_BARRIER hand-off, "
+    "invalid suspension state) stays at POut forever, so after one such call `quiescent` (all threads Idle) is unsatisfiable "
+    "for that thread set and C15_merge_while_busy_delivered / C15_terminal_all_delivered say nothing about that execution; the "
+    "stress harness never produces such a call (no over-resume, at most 2 nested suspensions) and a recorded round that did "
+    "would not be replayable (reported)",
     "boundary of (B): the target queue is a counter of how many times the source sits in it and any idle thread may pop it; that "
     "the target queue eventually invokes what sits in it is C01 for the target.  Scope of (B): from the source as created (inactive) "
     "through activation, role inheritance and installation; up to 62 nested suspensions (no side counter), no over-resume; "
@@ -66,14 +77,28 @@ def gen_consts():
     return {m.group(1): int(m.group(2)) for m in re.finditer(r"Definition (\w+) : Z := (-?\d+)\.", txt)}
 
 
+HARNESS_TIMEOUT = 300
+
+
 def run_harness(ctx, seed, rounds, permille):
+    """returns (text, error).  A run that hits the wall-clock limit is repeated once, alone, with ten times the limit
+    before anything is reported (machine load must not look like a failure); a crash, a non-zero exit or an output without the
+    recorder dump is an error (a broken tie), never a silent pass."""
     exe, msg = common.build_harness("c15_srcdata", ["c15_srcdata.c"], whitebox=True, extra=["-I" + common.VERIF + "/harness"])
     if exe is None:
-        raise RuntimeError("harness build failed: " + msg)
-    r = common.run([exe, str(seed), str(rounds), str(permille)], timeout=900)
+        return None, "harness build failed: " + msg[-1500:]
+    r = common.run([exe, str(seed), str(rounds), str(permille)], timeout=HARNESS_TIMEOUT)
+    if r.returncode == 124:
+        r = common.run([exe, str(seed), str(rounds), str(permille)], timeout=10 * HARNESS_TIMEOUT)
+        if r.returncode == 124:
+            return None, "c15_srcdata %d %d %d did not finish within %d s even when run alone" % (seed, rounds, permille,
+                                                                                                  10 * HARNESS_TIMEOUT)
     if r.returncode != 0:
-        raise RuntimeError("harness failed rc=%s: %s" % (r.returncode, (r.stderr or "")[-1500:]))
-    return r.stdout
+        return None, "c15_srcdata %d %d %d exited with %s: %s" % (seed, rounds, permille, r.returncode, (r.stderr or "")[-1500:])
+    if not re.search(r"^E ", r.stdout or "", flags=re.M):
+        return None, "c15_srcdata %d %d %d printed no recorded event (hook compiled out or output truncated)" % (seed, rounds,
+                                                                                                               permille)
+    return r.stdout, None
 
 
 def word_after(e):
@@ -210,6 +235,9 @@ def analyse(text, label, C, runinfo):
         for thr, evs in thr_ev.items():
             bs = [e.seq for e in evs if e.kind == 102]
             es = [e.seq for e in evs if e.kind == 103]
+            if len(bs) != len(es):
+                fail("marks", "thread %d has %d handler BEGIN marks and %d END marks: a handler invocation never returned "
+                     "(or the recording is truncated)" % (thr, len(bs), len(es)))
             ivs += list(zip(bs, es))
         ivs.sort()
         for (b1, e1), (b2, e2) in zip(ivs, ivs[1:]):
@@ -218,9 +246,9 @@ def analyse(text, label, C, runinfo):
                 break
         if qq["stuck1"]:
             fail("stuck", "after all merge/suspend/resume calls returned the source stayed with ds_pending_data=%d, dq_state=%#x "
-                 "for 12 s: merged data was never delivered" % (qq["pending"], qq["state"]))
+                 "and nothing moved for 12 s (no recorded operation, no change of either word): merged data was never delivered" % (qq["pending"], qq["state"]))
         elif qq["stuck2"]:
-            fail("stuck-sentinel", "a final non-zero merge on the idle source was not delivered within 12 s (ds_pending_data=%d, "
+            fail("stuck-sentinel", "a final non-zero merge on the idle source was not delivered and nothing moved for 12 s (ds_pending_data=%d, "
                  "dq_state=%#x)" % (qq["pending2"], qq["state2"]))
         if not (qq["stuck1"] or qq["stuck2"]):
             if info["kind"] == 0 and sum(deliv) % M64 != sum(merged) % M64:
@@ -291,25 +319,85 @@ def shape(tr):
     return tuple((e.kind, e.off, e.ok & 1, e.a == 0) for e in tr)
 
 
-def correspond(ctx):
-    C = gen_consts()
-    nproc, rounds = (9, 12) if ctx.tier == "quick" else (45, 18)
+MAX_EMBED_EVENTS = 1500      # a failing round / trace is embedded in the mismatch (for --replay) only below this size
+MAX_EMBED = 2                # ... and only for the first few mismatches of a kind
+
+
+def ev_line(e, obj=None):
+    return "E %d %d %d %d %d %d %d %d %d %d %d %d" % (e.thr, e.tid, e.seq, e.kind, e.order, e.obj if obj is None else obj, e.off,
+                                                     e.size, e.a, e.b, e.ok, e.line)
+
+
+def round_text(text, rd):
+    """the lines of one round of a harness output (its R and Q line and its recorded events), or None when too large"""
+    out = []
+    for l in text.split("\n"):
+        f = l.split()
+        if not f:
+            continue
+        if f[0] in ("R", "Q") and int(f[1]) == rd:
+            out.append(l)
+        elif f[0] == "E" and int(f[6]) // 3 == rd:
+            out.append(l)
+    return out if len(out) <= MAX_EMBED_EVENTS else None
+
+
+def coq_name(tag):
+    return "c15_%d_%s" % (os.getpid(), tag)          # two checks running at once must not write the same cases/*.v
+
+
+def conform_traces(pairs, tag):
+    """SrcData.conform on (self value, trace) pairs, in up to four parallel Coq processes; a part whose evaluation fails (time
+    limit, memory) is evaluated once more alone with ten times the limit.  returns (results, error)"""
+    if not pairs:
+        return [], None
+    nparts = 4
+    size = (len(pairs) + nparts - 1) // nparts
+    parts = [pairs[i:i + size] for i in range(0, len(pairs), size)]
+    imports = ["Word", "Conc", "Gen_dqstate", "Gen_srcdata", "SrcData"]
+
+    def conf(ix):
+        try:
+            return conc.coq_conform(coq_name("conf_%s_p%d" % (tag, ix)), imports, "conform", parts[ix], chunk=250), None
+        except (RuntimeError, IndexError) as ex:
+            return None, str(ex)
+    from concurrent.futures import ThreadPoolExecutor
+    with ThreadPoolExecutor(max_workers=nparts) as ex:
+        outs = list(ex.map(conf, range(len(parts))))
+    res = []
+    for ix, (r_, e_) in enumerate(outs):
+        if e_ is not None:
+            try:      # once more, alone
+                r_ = conc.coq_conform(coq_name("conf_%s_p%d_alone" % (tag, ix)), imports, "conform", parts[ix], timeout=9000,
+                                      chunk=250)
+            except (RuntimeError, IndexError) as ex:
+                return [], str(ex)
+        if len(r_) != len(parts[ix]):
+            return [], "coq conformance returned %d results for %d traces" % (len(r_), len(parts[ix]))
+        res += r_
+    return res, None
+
+
+def judge_runs(runs, C, tag="run", want_rounds=None):
+    """runs: list of (harness output, label, runinfo).  The whole judgement of recorded runs: API oracles, per-thread conformance
+    with SrcData.tstep, global replay on SrcLane.gstep.  returns dict(fails, mism, alltr, total)"""
     fails, mism, alltr, total = [], [], [], {}
     C2 = dict(C)
     C2.update({"LINE_" + k: v for k, v in c15_replay.site_lines().items()})
     rjobs, rmeta, rstats = [], [], {}
-    for i in range(nproc):
-        seed = ctx.seed * 1000 + i
-        permille = [0, 150, 400][i % 3]
-        runinfo = {"seed": seed, "rounds": rounds, "permille": permille}
-        text = run_harness(ctx, seed, rounds, permille)
-        f, tr, st = analyse(text, "seed%d" % seed, C, runinfo)
+    texts = {}
+    for text, label, runinfo in runs:
+        texts[label] = (text, runinfo)
+        f, tr, st = analyse(text, label, C, runinfo)
         fails += f
-        alltr += [(sv, t, rd, thr, seed) for (sv, t, rd, thr) in tr]
+        alltr += [(sv, t, rd, thr, label) for (sv, t, rd, thr) in tr]
         for k, v in st.items():
             total[k] = total.get(k, 0) + v
+        if want_rounds is not None and st["rounds"] != want_rounds:
+            mism.append({"what": "the harness recorded %d rounds where %d were requested" % (st["rounds"], want_rounds),
+                         "detail": {"label": label, "run": runinfo}})
         # the same recording, as a run of the global lane model
-        j_, m_, mm_, rs_ = c15_replay.replay_text(text, "seed%d" % seed, C2)
+        j_, m_, mm_, rs_ = c15_replay.replay_text(text, label, C2)
         rjobs += j_
         rmeta += m_
         mism += mm_
@@ -322,48 +410,31 @@ def correspond(ctx):
         import time
         t0_ = time.time()
         try:
-            rbox["res"], rbox["retried"] = c15_replay.replay_all("c15_replay", rjobs, rmeta, C2)
+            rbox["res"], rbox["retried"] = c15_replay.replay_all(coq_name("replay_" + tag), rjobs, rmeta, C2)
             rbox["wall"] = round(time.time() - t0_, 1)
         except Exception as ex:   # noqa
             rbox["err"] = str(ex)
     rth = threading.Thread(target=do_replay)
     rth.start()
-    res, err = [], None
-    pairs = [(sv, t) for (sv, t, _, _, _) in alltr]
-    nparts = 4
-    size = (len(pairs) + nparts - 1) // nparts if pairs else 1
-    parts = [pairs[i:i + size] for i in range(0, len(pairs), size)]
-
-    def conf(ix):
-        last = None
-        for attempt in range(2):   # keep the API-level failures of these runs even if the Coq evaluation cannot be done
-            try:
-                return conc.coq_conform("c15_conf_p%d" % ix, ["Word", "Conc", "Gen_dqstate", "Gen_srcdata", "SrcData"], "conform",
-                                        parts[ix], chunk=250), None
-            except RuntimeError as ex:
-                last = str(ex)
-        return None, last
-    from concurrent.futures import ThreadPoolExecutor
-    with ThreadPoolExecutor(max_workers=nparts) as ex:
-        outs = list(ex.map(conf, range(len(parts))))
-    for r_, e_ in outs:
-        if e_ is not None:
-            err = e_
-            res = []
-            break
-        res += r_
+    res, err = conform_traces([(sv, t) for (sv, t, _, _, _) in alltr], tag)
     if err is not None:
-        mism.append({"what": "trace conformance could not be evaluated in Coq", "detail": err[-1500:]})
-    for (i, idle), (sv, t, rd, thr, seed) in zip(res, alltr):
-        if i != -1 or idle != 1:
-            lo = max(0, i - 8) if i >= 0 else max(0, len(t) - 12)
-            mism.append({"what": "a recorded thread trace of the library is not accepted by the model's thread automaton "
-                         "(SrcData.tstep): the implementation took a step the model does not have",
-                         "detail": {"seed": seed, "round": rd, "thread": thr, "kind_qos": sv, "rejected_at": i,
-                                    "ended_idle": idle, "around": [e.brief() for e in t[lo:(i + 3 if i >= 0 else len(t))]]}})
+        mism.append({"what": "trace conformance could not be evaluated in Coq", "detail": {"error": err[-1500:]}})
+    elif len(res) != len(alltr):
+        mism.append({"what": "trace conformance returned %d verdicts for %d traces" % (len(res), len(alltr)), "detail": {}})
+    else:
+        for (i, idle), (sv, t, rd, thr, label) in zip(res, alltr):
+            if i != -1 or idle != 1:
+                lo = max(0, i - 8) if i >= 0 else max(0, len(t) - 12)
+                mism.append({"what": "a recorded thread trace of the library is not accepted by the model's thread automaton "
+                             "(SrcData.tstep): the implementation took a step the model does not have",
+                             "detail": {"label": label, "run": texts[label][1], "round": rd, "thread": thr, "kind_qos": sv,
+                                        "rejected_at": i, "ended_idle": idle,
+                                        "around": [e.brief() for e in t[lo:(i + 3 if i >= 0 else len(t))]],
+                                        "trace": [ev_line(e) for e in t] if len(t) <= MAX_EMBED_EVENTS else None}})
     rth.join()
     if "err" in rbox:
-        mism.append({"what": "the global replay on SrcLane.gstep could not be evaluated in Coq", "detail": rbox["err"][-1500:]})
+        mism.append({"what": "the global replay on SrcLane.gstep could not be evaluated in Coq",
+                     "detail": {"error": rbox["err"][-1500:]}})
     else:
         mm_, nrep = c15_replay.judge(rmeta, rbox["res"], C2)
         mism += mm_
@@ -372,10 +443,57 @@ def correspond(ctx):
         rstats["wall_s_concurrent_with_the_thread_conformance"] = rbox.get("wall", 0)
     for k, v in rstats.items():
         total["replay_" + k] = v
+    # what --replay needs: the parameters of the run and (small rounds only) the recording of the round itself
+    nemb = {}
+    for m in mism:
+        d = m.get("detail")
+        if not isinstance(d, dict) or "label" not in d or d["label"] not in texts:
+            continue
+        d.setdefault("run", texts[d["label"]][1])
+        kind = m["what"][:24]
+        if "round" in d and "trace" not in d and nemb.get(kind, 0) < MAX_EMBED:
+            d["round_recording"] = round_text(texts[d["label"]][0], d["round"])
+            nemb[kind] = nemb.get(kind, 0) + 1
+        elif d.get("trace") is not None:
+            if nemb.get(kind, 0) >= MAX_EMBED:
+                d["trace"] = None
+            nemb[kind] = nemb.get(kind, 0) + 1
     # (only the first 20 mismatches are kept below: how many of which layer)
     total["mismatches_round_not_readable_as_lane_actions"] = sum(1 for m in mism if m["what"].startswith("a recorded round cannot"))
     total["mismatches_global_replay"] = sum(1 for m in mism if m["what"].startswith("global replay"))
     total["mismatches_thread_automaton"] = sum(1 for m in mism if m["what"].startswith("a recorded thread trace"))
+    return dict(fails=fails, mism=mism, alltr=alltr, total=total)
+
+
+def correspond(ctx):
+    C = gen_consts()
+    nproc, rounds = (9, 12) if ctx.tier == "quick" else (45, 18)
+    runs, pre = [], []
+    for i in range(nproc):
+        seed = ctx.seed * 1000 + i
+        permille = [0, 150, 400][i % 3]
+        runinfo = {"seed": seed, "rounds": rounds, "permille": permille}
+        text, err = run_harness(ctx, seed, rounds, permille)
+        if err is not None:
+            pre.append({"what": "a harness run produced no recording: " + err, "detail": {"run": runinfo}})
+            continue
+        runs.append((text, "seed%d" % seed, runinfo))
+    J = judge_runs(runs, C, "main", want_rounds=rounds)
+    fails, mism, alltr, total = J["fails"], pre + J["mism"], J["alltr"], J["total"]
+    total["harness_runs_requested"] = nproc
+    total["harness_runs_recorded"] = len(runs)
+    # floors: what was actually measured
+    if total.get("rounds", 0) == 0 or not alltr:
+        mism.append({"what": "nothing was measured: %d rounds and %d thread traces recorded" % (total.get("rounds", 0), len(alltr)),
+                     "detail": {}})
+    if total.get("replay_rounds", 0) == 0 or total.get("replay_rounds_replayed", 0) + total.get(
+            "mismatches_round_not_readable_as_lane_actions", 0) + total.get("mismatches_global_replay", 0) < total.get("replay_rounds", 0):
+        mism.append({"what": "the global replay did not account for every recorded round: %d rounds, %d replayed, %d not readable, "
+                     "%d not reproduced" % (total.get("replay_rounds", 0), total.get("replay_rounds_replayed", 0),
+                                            total.get("mismatches_round_not_readable_as_lane_actions", 0),
+                                            total.get("mismatches_global_replay", 0)), "detail": {}})
+    if total.get("handler_calls", 0) == 0 or total.get("merge_calls", 0) == 0:
+        mism.append({"what": "no merge_data call or no handler invocation was recorded", "detail": {}})
     distinct = len(set(shape(t) for (_, t, _, _, _) in alltr))
     mergers = [x for x in alltr if any(e.kind == 100 for e in x[1])][:2]
     drainers = [x for x in alltr if any(e.kind == 3 for e in x[1])][:2]
@@ -391,22 +509,113 @@ def correspond(ctx):
                     "SrcData.tstep inside Coq.  API oracle per source after draining (wait until at rest, then a sentinel "
                     "merge, wait until delivered): ADD sum of delivered = sum of merged mod 2^64, OR unions equal, REPLACE "
                     "delivered values all merged and the sentinel is the last delivered; no handler call with data 0; handler "
-                    "never re-entered (atomic flag + stamp intervals); not stuck (white-box read of ds_pending_data / dq_state "
-                    "after 12 s).  distinct = distinct shapes of thread traces",
+                    "never re-entered (atomic flag + stamp intervals); not stuck (progress based: the harness gives up on a source "
+                    "only after 12 s in which no operation was recorded and neither ds_pending_data nor dq_state nor the handler "
+                    "counters changed).  A harness run that hits its time limit is run once more alone with ten times the limit; "
+                    "a failed Coq evaluation likewise.  distinct = distinct shapes of thread traces",
             "samples": samples, "distribution": total, "traces_validated_against_impl": len(alltr),
             "mismatches": mism[:20], "failures": fails[:20]}
 
 
+def rerun_and_judge(ctx, C, run, tries, tag):
+    """the recorded run again (same seed, round count, perturbation); thread schedules differ from run to run, so it is tried a
+    few times.  returns (executed, failures + mismatches of the first try that has any)"""
+    executed = False
+    for k in range(tries):
+        text, err = run_harness(ctx, int(run["seed"]), int(run["rounds"]), int(run["permille"]))
+        if err is not None:
+            print("  re-run could not be executed:", err)
+            continue
+        executed = True
+        J = judge_runs([(text, "seed%d" % int(run["seed"]), dict(run))], C, "%s_%d" % (tag, k), want_rounds=int(run["rounds"]))
+        bad = J["fails"] + J["mism"]
+        print("  re-run c15_srcdata %s %s %s (#%d): %d failures, %d mismatches" % (run["seed"], run["rounds"], run["permille"],
+                                                                               k + 1, len(J["fails"]), len(J["mism"])))
+        if bad:
+            return True, bad
+    return executed, []
+
+
 def replay(ctx, obj):
+    """re-executes what the file records and judges it again: rc 1 reproduces, 0 does not, 2 nothing could be executed"""
     C = gen_consts()
-    for f in obj.get("failures", []):
+    reproduced, executed, unexecutable = 0, 0, 0
+    seen_runs = set()
+
+    def run_key(r):
+        return (int(r["seed"]), int(r["rounds"]), int(r["permille"]))
+    for n, f in enumerate(obj.get("failures", [])):
         print("recorded failure:", f.get("what"))
-        seed, rounds, permille = int(f.get("seed", 1000)), int(f.get("rounds", 9)), int(f.get("permille", 150))
-        text = run_harness(ctx, seed, rounds, permille)
-        f2, _, _ = analyse(text, f.get("label", "seed%d" % seed), C, {"seed": seed, "rounds": rounds, "permille": permille})
-        print("re-run c15_srcdata %d %d %d: %d failures" % (seed, rounds, permille, len(f2)))
-        for x in f2[:5]:
-            print("  ", x["what"])
-    for b in obj.get("broken", []):
-        print("no longer checks:", b)
-    return 1
+        if not all(k in f for k in ("seed", "rounds", "permille")):
+            print("  the entry does not say which run it came from: nothing to execute")
+            unexecutable += 1
+            continue
+        if run_key(f) in seen_runs:
+            continue
+        seen_runs.add(run_key(f))
+        ex, bad = rerun_and_judge(ctx, C, f, 3, "rf%d" % n)
+        executed += 1 if ex else 0
+        unexecutable += 0 if ex else 1
+        for x in bad[:5]:
+            print("   reproduces:", x["what"][:600])
+        reproduced += 1 if bad else 0
+        if ex and not bad:
+            print("  does not reproduce")
+    for n, b in enumerate(obj.get("broken", [])):
+        d = b.get("detail") if isinstance(b, dict) else None
+        if not isinstance(b, dict) or b.get("what") != "correspondence" or not isinstance(d, dict):
+            print("no longer checked (%s): %s" % (b.get("what") if isinstance(b, dict) else "?", str(d if d is not None else b)[:800]))
+            print("  a proof / translation / build entry is not an input that can be executed again: only a full ./check C15 "
+                  "re-establishes it")
+            unexecutable += 1
+            continue
+        print("recorded mismatch:", str(d.get("what"))[:600])
+        dd = d.get("detail") if isinstance(d.get("detail"), dict) else {}
+        did = False
+        # 1. the recorded round / trace itself, through the judge again
+        if dd.get("round_recording"):
+            J = judge_runs([("\n".join(dd["round_recording"]) + "\n", dd.get("label", "rec"), dd.get("run", {}))], C, "rb%d" % n)
+            bad = [m for m in J["mism"] if not m["what"].startswith("the harness recorded")] + J["fails"]
+            print("  the recorded round, judged again: %d failures / mismatches" % len(bad))
+            for x in bad[:3]:
+                print("   reproduces:", x["what"][:600])
+            did, reproduced = True, reproduced + (1 if bad else 0)
+        elif dd.get("trace"):
+            tr = [conc.Ev(l.split()[1:]) for l in dd["trace"]]
+            res, err = conform_traces([(int(dd["kind_qos"]), tr)], "rb%d" % n)
+            if err is None and len(res) == 1:
+                bad = res[0][0] != -1 or res[0][1] != 1
+                print("  the recorded thread trace through SrcData.conform again: %s" % (
+                    "rejected at %d (ended idle: %d)" % res[0] if bad else "accepted"))
+                did, reproduced = True, reproduced + (1 if bad else 0)
+            else:
+                print("  the recorded thread trace could not be evaluated:", err)
+        # 2. the run it came from, again
+        run = dd.get("run")
+        if isinstance(run, dict) and all(k in run for k in ("seed", "rounds", "permille")) and run_key(run) not in seen_runs:
+            seen_runs.add(run_key(run))
+            ex, bad = rerun_and_judge(ctx, C, run, 2, "rr%d" % n)
+            for x in bad[:5]:
+                print("   reproduces:", x["what"][:600])
+            did = did or ex
+            reproduced += 1 if bad else 0
+        elif isinstance(run, dict) and all(k in run for k in ("seed", "rounds", "permille")):
+            did = True      # that run was already executed again above
+        if did:
+            executed += 1
+        else:
+            print("  the entry carries no run parameters and no recording: nothing to execute; only a full ./check C15 "
+                  "re-establishes it")
+            unexecutable += 1
+    if reproduced:
+        print("reproduces (%d of the recorded entries)" % reproduced)
+        return 1
+    if executed and not unexecutable:
+        print("does not reproduce")
+        return 0
+    if executed:
+        print("does not reproduce for the %d entries that could be executed; %d entries could not be executed" % (executed,
+                                                                                                           unexecutable))
+        return 2
+    print("nothing could be executed")
+    return 2
